@@ -1434,7 +1434,8 @@ def validate_connect_loop(rng, n, res):
             self.status = back[self.script.pop(0)]
 
     reqs, reals = [], []
-    stats = {"connect_components": 0, "returned": 0, "circular": 0, "other": 0, "mismatch": 0}
+    stuck_reqs, stuck_want = [], []
+    stats = {"connect_components": 0, "returned": 0, "circular": 0, "other": 0, "mismatch": 0, "stuck_lists": 0}
     for _ in range(n):
         k = rng.randint(1, 4)
         scripts = []
@@ -1460,6 +1461,13 @@ def validate_connect_loop(rng, n, res):
             real = {"ok": sorted([c.k, code[c.status]] for c in comps)}
         except Exception as e:  # noqa
             real = {"err": err_class(e)}
+            if (real["err"] == "FinamCircularCouplingError" and "Unconnected components: [" in str(e)
+                    and common.TRANSLATION_STATUS.get("connect_stuck", {}).get("translated")):
+                # whom the error names, against the translated comprehension on the statuses the components are left with
+                inner = str(e).split("Unconnected components: [", 1)[1].rsplit("]", 1)[0]
+                named = [int(nm.strip()[1:]) for nm in inner.split(",") if nm.strip()]
+                stuck_reqs.append({"fn": "connect_stuck", "args": [[c.k for c in comps], [[c.k, code[c.status]] for c in comps]]})
+                stuck_want.append({"ok": named})
         reqs.append({"fn": "connect_components", "args": [order, [[c, 3] for c in order], [[c, scripts[c]] for c in range(k)], 100]})
         reals.append(real)
     for rq, real, lv in zip(reqs, reals, _trdriver(reqs)):
@@ -1473,6 +1481,12 @@ def validate_connect_loop(rng, n, res):
         if not agree:
             stats["mismatch"] += 1
             res.diverge("translation/" + rq["fn"], {"fn": rq["fn"], "args": rq["args"]}, real, lv)
+    if stuck_reqs:
+        for rq, want, got in zip(stuck_reqs, stuck_want, _trdriver(stuck_reqs)):
+            stats["stuck_lists"] += 1
+            if got != want:
+                stats["mismatch"] += 1
+                res.diverge("translation/connect_stuck", {"fn": "connect_stuck", "args": rq["args"]}, want, got)
     res.extra["translation_validation_connect_loop"] = stats
 
 
